@@ -309,6 +309,29 @@ pub fn ftok(x: f64) -> String {
 
 /// Canonical dump of a 2-map: `mask n` then per dart `b0 b1 b2 unused vflag [x y] (aflag [val])*`.
 /// Raw slots are dumped at *every* id, not only at cell ids, so stale data is visible.
+thread_local! {
+    /// number of reads of a slot below the dart count that panicked while dumping (C18: addressability)
+    pub static DUMP_PANICS: std::cell::Cell<u32> = const { std::cell::Cell::new(0) };
+}
+/// a read made by a dump: a panic is counted and rendered as an absent value
+pub fn safe_read<T>(f: impl FnOnce() -> Option<T>) -> Option<T> {
+    match std::panic::catch_unwind(std::panic::AssertUnwindSafe(f)) {
+        Ok(v) => v,
+        Err(_) => {
+            DUMP_PANICS.with(|c| c.set(c.get() + 1));
+            None
+        }
+    }
+}
+/// marks an observation line whose dump hit an unreadable slot: result class 5
+pub fn mark_dump_panics(id: &str, k: usize, line: &mut String) {
+    if DUMP_PANICS.with(|c| c.replace(0)) > 0 {
+        let prefix = format!("{id} {k} ");
+        let rest: Vec<&str> = line[prefix.len()..].splitn(4, ' ').collect();
+        *line = format!("{prefix}5 {} {} {}", rest[1], rest[2], rest.get(3).copied().unwrap_or(""));
+    }
+}
+
 pub fn dump2(m: &CMap2<f64>, mask: u32, out: &mut String) {
     let n = m.n_darts();
     write!(out, " {mask} {n}").unwrap();
@@ -322,13 +345,13 @@ pub fn dump2(m: &CMap2<f64>, mask: u32, out: &mut String) {
             u8::from(m.is_unused(d))
         )
         .unwrap();
-        match m.force_read_vertex(d as VertexIdType) {
+        match safe_read(|| m.force_read_vertex(d as VertexIdType)) {
             Some(v) => write!(out, " 1 {} {}", ftok(v.x()), ftok(v.y())).unwrap(),
             None => out.push_str(" 0"),
         }
         for k in 0..N_ALL_KINDS {
             if mask & (1 << k) != 0 {
-                match read_attr2(m, k, d) {
+                match safe_read(|| read_attr2(m, k, d)) {
                     Some(a) => write!(out, " 1 {a}").unwrap(),
                     None => out.push_str(" 0"),
                 }
